@@ -37,9 +37,12 @@ var testMode = false
 // When discarding a newly added KV in `Cleanup`, the non-persistent flags will be cleared.
 // If there are persistent flags associated with key, we will keep this key in node without value.
 type ART struct {
-	allocator       artAllocator
-	root            artNode
-	stages          []arena.MemDBCheckpoint
+	allocator artAllocator
+	root      artNode
+	stages    []arena.MemDBCheckpoint
+	// lastCheckpoint is the latest position handed out by Checkpoint or reverted to by RevertToCheckpoint. Values
+	// before it can't be modified in place: the caller may still revert to it.
+	lastCheckpoint  *arena.MemDBCheckpoint
 	vlogInvalid     bool
 	dirty           bool
 	entrySizeLimit  uint64
@@ -424,6 +427,9 @@ func (t *ART) trySwapValue(addr arena.MemdbArenaAddr, value []byte) (int, bool) 
 			return len(oldVal), false
 		}
 	}
+	if !t.allocator.vlogAllocator.CanModify(t.lastCheckpoint, addr) {
+		return len(oldVal), false
+	}
 	if len(oldVal) > 0 && len(oldVal) == len(value) {
 		copy(oldVal, value)
 		return 0, true
@@ -489,6 +495,8 @@ func (t *ART) IsStaging() bool {
 // Checkpoint returns a checkpoint of ART.
 func (t *ART) Checkpoint() *arena.MemDBCheckpoint {
 	cp := t.allocator.vlogAllocator.Checkpoint()
+	lastCp := cp
+	t.lastCheckpoint = &lastCp
 	return &cp
 }
 
@@ -496,6 +504,8 @@ func (t *ART) Checkpoint() *arena.MemDBCheckpoint {
 func (t *ART) RevertToCheckpoint(cp *arena.MemDBCheckpoint) {
 	t.allocator.vlogAllocator.RevertToCheckpoint(t, cp)
 	t.allocator.vlogAllocator.Truncate(cp)
+	lastCp := *cp
+	t.lastCheckpoint = &lastCp
 	t.allocator.vlogAllocator.OnMemChange()
 	t.WriteSeqNo++
 	if len(t.stages) == 0 || t.stages[0].LessThan(cp) {
@@ -556,6 +566,11 @@ func (t *ART) Cleanup(h int) {
 			t.allocator.vlogAllocator.Truncate(cp)
 		}
 	}
+	if t.lastCheckpoint != nil && cp.LessThan(t.lastCheckpoint) {
+		// the log was cut below the latest checkpoint: that checkpoint is dead, protect up to the cut only
+		c := *cp
+		t.lastCheckpoint = &c
+	}
 	t.stages = t.stages[:h-1]
 	t.allocator.vlogAllocator.OnMemChange()
 }
@@ -564,6 +579,7 @@ func (t *ART) Cleanup(h int) {
 func (t *ART) Reset() {
 	t.root = nullArtNode
 	t.stages = t.stages[:0]
+	t.lastCheckpoint = nil
 	t.dirty = false
 	t.vlogInvalid = false
 	t.size = 0
